@@ -367,6 +367,8 @@ class Engine:
                 return ANY
             if n in ("Any", "object", "dict"):
                 return ANY
+            if n in self.prog.classes and self.is_enum_class(n):
+                return Ty("enum", n)
             if n in self.prog.classes:
                 return REF(n)
             if n in ("Callable", "ReadyOperationsFilter"):
@@ -401,6 +403,8 @@ class Engine:
             if l.kind == "callref" or r.kind == "callref":
                 return CALLREF()
             if l.kind == "int" and r.kind in ("list", "tuple"):
+                return UNION(l, r)
+            if {l.kind, r.kind} == {"ref", "int"}:
                 return UNION(l, r)
             return l
         if isinstance(node, ast.Attribute):
@@ -886,6 +890,8 @@ class Engine:
 
     @staticmethod
     def union_alt_matches(ty, cname):
+        if ty.kind == "ref":
+            return ty.arg == cname
         return {"int": ty.kind in ("int", "bool"), "list": ty.kind == "list", "tuple": ty.kind == "tuple",
                 "bool": ty.kind == "bool"}.get(cname, False)
 
@@ -1538,6 +1544,10 @@ class Engine:
 
     def get_attr(self, obj: Val, attr, st, node):
         k = obj.ty.kind
+        if k == "class" and self.is_enum_class(obj.t):
+            members = list(self.prog.classes[obj.t].class_attrs)
+            if attr in members:
+                return [(st, Val(Ty("enum", obj.t), z3.IntVal(members.index(attr))))]
         if k == "class":
             # Class.attr : static method reference or class attribute
             fi = self.prog.find_method(obj.t, attr)
@@ -1623,6 +1633,10 @@ class Engine:
             out.append((okst, v))
         return out
 
+    def is_enum_class(self, cls):
+        ci = self.prog.classes.get(cls)
+        return ci is not None and any(b.split(".")[-1] in ("Enum", "IntEnum") for b in ci.bases)
+
     def has_field(self, cls, attr):
         for c in self.prog.mro(cls):
             if f"{c}.{attr}" in self.field_types:
@@ -1671,7 +1685,7 @@ class Engine:
             raise OutsideSubset(f"subscript of {base.ty} at line {node.lineno}")
         h = st.heap
         n = h.len(base)
-        it = idx.t if idx.ty.kind == "int" else z3.If(idx.t, 1, 0)
+        it = idx.t if idx.ty.kind in ("int", "enum") else z3.If(idx.t, 1, 0)
         j = z3.If(it < 0, it + n, it)
         okst, bad = self.split(st, z3.And(j >= 0, j < n), "IndexError", node)
         out = [(b, None) for b in bad]
@@ -2327,6 +2341,12 @@ class Engine:
 
     def eval_args(self, e, st):
         """-> [(state, positional Vals, keyword Vals)]"""
+        # `**{...}` / `**name`: forwarded keyword arguments are opaque (a dict display is not evaluated)
+        kws = [k for k in e.keywords if not (k.arg is None and isinstance(k.value, (ast.Dict, ast.Name)))]
+        dropped = len(kws) != len(e.keywords)
+        if dropped:
+            e = copy.copy(e)
+            e.keywords = kws
         exprs = list(e.args) + [k.value for k in e.keywords]
         out = []
         for s, vs in self.ev_many(exprs, st):
@@ -2388,7 +2408,7 @@ class Engine:
             return Val(ty, z3.IntVal(id(v.t) % 1000003 + 1))
         if ty.kind == "union" and v.ty.kind != "union":
             a, b = ty.items
-            if v.ty.kind == a.kind or (a.kind == "int" and v.ty.kind == "bool"):
+            if v.ty.kind == a.kind or (a.kind == "int" and v.ty.kind in ("bool", "enum")):
                 return Val(ty, (z3.BoolVal(True), v, self.fresh_val(b, "unused_alt")))
             if v.ty.kind == b.kind:
                 return Val(ty, (z3.BoolVal(False), self.fresh_val(a, "unused_alt"), v))
